@@ -63,7 +63,9 @@ INT_CLASSES = {"plain": 7, "int0": 0, "intneg": -3, "intmax": 2147483647, "int10
 PROBE_SRC = r'''
 import json, os, stat, sys
 data = {"argv": sys.argv[1:], "env": {k: v for k, v in os.environ.items() if k.startswith("SFV_")},
-        "stdin": None, "cwd_is_home": os.environ.get("HOME") == os.getcwd()}
+        "stdin": None, "cwd_is_home": os.environ.get("HOME") == os.getcwd(), "cwd": os.getcwd(),
+        "HOME": os.environ.get("HOME"), "TMPDIR": os.environ.get("TMPDIR"),
+        "tmp_isdir": os.path.isdir(os.environ.get("TMPDIR") or "/nonexistent")}
 try:
     if stat.S_ISREG(os.fstat(0).st_mode):
         data["stdin"] = sys.stdin.buffer.read().decode("utf-8", "surrogateescape")
@@ -154,6 +156,64 @@ def atom_key(a: dict):
     return (a["k"], a["o"], a["of"], a["i"])
 
 
+# the designated directories of a job (atoms of kind "rt"): compared as tags, see runtime_view
+RT_TAG = {"outdir": "<OUTDIR>", "tmpdir": "<TMPDIR>"}
+
+
+def atom_text(a: dict, text: dict) -> str:
+    if a["k"] == "rt":
+        return RT_TAG[a["of"]]
+    return str(text[atom_key(a)])
+
+
+def with_vals(tool: dict, vals: list) -> dict:
+    """CWLBinding!WithVals: the tool with the input values of another job of the step."""
+    t = dict(tool)
+    t["inputs"] = [dict(f, val=v) for f, v in zip(tool["inputs"], vals, strict=True)]
+    return t
+
+
+def runtime_view(obs: dict, tool: dict, others=()) -> None:
+    """Replace the job's designated directories in what the probe saw by tags (they differ from run to run):
+    obs["rt"] = {"HOME": tag, "TMPDIR": tag}, obs["env"] values that are one of the directories -> tag.
+    Output directory of the job := the directory its process was started in; temporary directory := what
+    $(runtime.tmpdir) evaluates to when the tool publishes it (EnvVarRequirement of kind "rt"), else $TMPDIR.
+    `others`: the raw observations of the other jobs of the same step."""
+    if not obs.get("ok"):
+        return
+    tvar = next((e["name"] for e in tool["env"] if e["kind"] == "rt" and e["ref"] == "tmpdir"), None)
+
+    def dirs(o):
+        env = o.get("env_raw", o.get("env")) or {}
+        return o.get("cwd"), (env.get(tvar) if tvar and env.get(tvar) else o.get("TMPDIR"))
+
+    out, tmp = dirs(obs)
+    oth = [dirs(o) for o in others if o.get("ok")]
+
+    def tag(v):
+        if v is None:
+            return "<unset>"
+        if v == out:
+            return "<OUTDIR>"
+        if v == tmp:
+            return "<TMPDIR>"
+        if any(v == o for o, _ in oth):
+            return "<OUTDIR of another job>"
+        if any(v == t for _, t in oth):
+            return "<TMPDIR of another job>"
+        return v
+
+    obs["env_raw"] = dict(obs.get("env") or {})
+    obs["env"] = {k: (tag(v) if os.path.isabs(v) else v) for k, v in obs["env_raw"].items()}
+    t = tag(obs.get("TMPDIR"))
+    if t == "<TMPDIR>" and not tvar and any(obs.get("TMPDIR") == o.get("TMPDIR") for o in others if o.get("ok")):
+        # (without $(runtime.tmpdir) nothing tells which of the jobs the directory belongs to)
+        t = "<TMPDIR shared with another job>"
+    elif t == "<TMPDIR>" and not obs.get("tmp_isdir"):
+        t = "<TMPDIR: not a directory>"
+    obs["rt"] = {"HOME": tag(obs.get("HOME")), "TMPDIR": t}
+
+
 # ----------------------------------------------------------------------------------------------------------
 # rendering
 # ----------------------------------------------------------------------------------------------------------
@@ -188,6 +248,7 @@ def render(tool: dict, text: dict, probe: str, indir: str, explicit_zero: bool =
     if tool["env"]:
         reqs["EnvVarRequirement"] = {"envDef": [
             {"envName": e["name"], "envValue": text[("lit", "env", e["name"], k + 1)] if e["kind"] == "lit"
+             else "$(runtime.%s)" % e["ref"] if e["kind"] == "rt"
              else "$(inputs.%s)" % e["ref"]} for k, e in enumerate(tool["env"])]}
     if reqs:
         doc["requirements"] = reqs
@@ -255,12 +316,13 @@ def expected_of(exp: dict, tool: dict, text: dict) -> dict:
             return ("t", FIX_TEXT[a["of"]])
         if a["k"] == "path":
             return ("p", text[("path", a["o"], a["of"], a["i"])])
-        return ("t", str(text[atom_key(a)]))
+        return ("t", atom_text(a, text))
 
     argv = [[piece(a) for a in w] for w in exp["argv"]]
-    env = {e["name"]: "".join(str(text[atom_key(a)]) for a in e["text"]) for e in exp["env"]}
+    env = {e["name"]: "".join(atom_text(a, text) for a in e["text"]) for e in exp["env"]}
     stdin = text[("content", "in", exp["stdin"], 0)] if exp["stdin"] else None
     return {"argv": argv, "env": env, "stdin": stdin,
+            "rt": {e["name"]: "".join(atom_text(a, text) for a in e["text"]) for e in exp["rtenv"]},
             "stdout": text[("stdout",)] if exp["stdout"] else None,
             "stderr": text[("stderr",)] if exp["stderr"] else None}
 
@@ -363,9 +425,54 @@ class _Capture(logging.Handler):
             pass
 
 
+def _ref_run(cd: str, doc: str, job: str, outdir: str, timeout: int):
+    """cwltool in-process -> (rc, log)"""
+    w = _W
+    so, se = io.StringIO(), io.StringIO()
+    rc = None
+    signal.alarm(timeout)
+    try:
+        rc = w["cwltool"].main(argsl=["--no-container", "--quiet", "--relax-path-checks", "--outdir", outdir,
+                                      os.path.join(cd, doc), os.path.join(cd, job)], stdout=so, stderr=se)
+    except _Timeout:
+        rc = "timeout"
+    except BaseException as e:  # noqa
+        rc = "raise:%s" % type(e).__name__
+    finally:
+        signal.alarm(0)
+    return rc, se.getvalue()[-800:]
+
+
+def _sf_run(cd: str, sf_yml: str, doc: str, job: str, outdir: str, timeout: int):
+    """streamflow.cwl.runner in-process -> (rc, what it printed on stdout, log)"""
+    w = _W
+    cap = _Capture()
+    w["sf_logger"].addHandler(cap)
+    cwd = os.getcwd()
+    os.chdir(cd)
+    buf = io.StringIO()
+    signal.alarm(timeout)
+    try:
+        with contextlib.redirect_stdout(buf):
+            rc = w["sf_main"](["--quiet", "--streamflow-file", os.path.join(cd, sf_yml), "--outdir", outdir,
+                               os.path.join(cd, doc), os.path.join(cd, job)])
+    except _Timeout:
+        rc = "timeout"
+    except BaseException as e:  # noqa
+        rc = "raise:%s" % type(e).__name__
+    finally:
+        signal.alarm(0)
+        os.chdir(cwd)
+        w["sf_logger"].removeHandler(cap)
+    return rc, buf.getvalue(), "\n".join(cap.lines)[-800:]
+
+
 def run_case(case: dict) -> dict:
     """case: {"id", "tool", "text": [[slot key list, content]...], "explicit_zero", "timeout"} ->
-    {"id", "ref": {...}, "sf": {...}}; every failure of a runner is an observation, not an exception."""
+    {"id", "ref": {...}, "sf": {...}}; every failure of a runner is an observation, not an exception.
+    A case with "jobs" is a STEP (see run_step)."""
+    if case.get("jobs"):
+        return run_step(case)
     w = _W
     w["n"] += 1
     cd = os.path.join(w["dir"], "c%d" % w["n"])
@@ -385,51 +492,141 @@ def run_case(case: dict) -> dict:
         timeout = int(case.get("timeout", 120))
         # --- the oracle
         ref_out = os.path.join(cd, "ref")
-        so, se = io.StringIO(), io.StringIO()
-        rc = None
-        signal.alarm(timeout)
-        try:
-            rc = w["cwltool"].main(argsl=["--no-container", "--quiet", "--relax-path-checks", "--outdir", ref_out,
-                                          os.path.join(cd, "tool.cwl"), os.path.join(cd, "job.json")],
-                                   stdout=so, stderr=se)
-        except _Timeout:
-            rc = "timeout"
-        except BaseException as e:  # noqa
-            rc = "raise:%s" % type(e).__name__
-        finally:
-            signal.alarm(0)
+        rc, log = _ref_run(cd, "tool.cwl", "job.json", ref_out, timeout)
         out["ref"] = _collect(ref_out, names)
         out["ref"]["rc"] = rc
         if not out["ref"]["ok"]:
-            out["ref"]["log"] = se.getvalue()[-800:]
+            out["ref"]["log"] = log
         # --- StreamFlow
         sf_out = os.path.join(cd, "sf")
-        cap = _Capture()
-        w["sf_logger"].addHandler(cap)
-        cwd = os.getcwd()
-        os.chdir(cd)
-        signal.alarm(timeout)
-        try:
-            with contextlib.redirect_stdout(io.StringIO()):
-                rc = w["sf_main"](["--quiet", "--streamflow-file", os.path.join(cd, "sf.yml"), "--outdir", sf_out,
-                                   os.path.join(cd, "tool.cwl"), os.path.join(cd, "job.json")])
-        except _Timeout:
-            rc = "timeout"
-        except BaseException as e:  # noqa
-            rc = "raise:%s" % type(e).__name__
-        finally:
-            signal.alarm(0)
-            os.chdir(cwd)
-            w["sf_logger"].removeHandler(cap)
+        rc, _, log = _sf_run(cd, "sf.yml", "tool.cwl", "job.json", sf_out, timeout)
         out["sf"] = _collect(sf_out, names)
         out["sf"]["rc"] = rc
         if not out["sf"]["ok"]:
-            out["sf"]["log"] = "\n".join(cap.lines)[-800:]
+            out["sf"]["log"] = log
+        runtime_view(out["ref"], case["tool"])
+        runtime_view(out["sf"], case["tool"])
     except BaseException as e:  # noqa  (harness-side problem: reported as machinery error by the driver)
         import traceback
         out["harness_error"] = traceback.format_exc()[-1500:]
     finally:
         shutil.rmtree(cd, ignore_errors=True)
         # StreamFlow's local job directories of this run
+        shutil.rmtree(os.path.join(w["dir"], "streamflow"), ignore_errors=True)
+    return out
+
+
+# ----------------------------------------------------------------------------------------------------------
+# steps: one tool, several jobs (CWLBinding "Steps")
+# ----------------------------------------------------------------------------------------------------------
+def _plain_type(ty):
+    """The type without command-line bindings (a workflow parameter has none)."""
+    if isinstance(ty, list):
+        return [_plain_type(t) for t in ty]
+    if isinstance(ty, dict):
+        return {k: _plain_type(v) if k in ("type", "items") else v for k, v in ty.items() if k != "inputBinding"}
+    return ty
+
+
+def step_workflow(doc: dict) -> dict:
+    """A workflow whose only step scatters the tool (tool.cwl) over ALL its inputs (dotproduct): element j of
+    every input array is the value of that input in job j, so one CWLCommand object executes all the jobs."""
+    names = list(doc["inputs"])
+    outs = list(doc["outputs"])
+    step = {"run": "tool.cwl", "scatter": names if len(names) > 1 else names[0], "in": {n: n for n in names}, "out": outs}
+    if len(names) > 1:
+        step["scatterMethod"] = "dotproduct"
+    return {"cwlVersion": "v1.2", "class": "Workflow", "requirements": {"ScatterFeatureRequirement": {}},
+            "inputs": {n: {"type": {"type": "array", "items": _plain_type(doc["inputs"][n]["type"])}} for n in names},
+            "outputs": {o: {"type": {"type": "array", "items": "File"}, "outputSource": "s/" + o} for o in outs},
+            "steps": {"s": step}}
+
+
+def _collect_listed(result: dict, j: int, names: dict) -> dict:
+    """Observations of job j from the output object of the scattered workflow (arrays in scatter order)."""
+    res = {"ok": False}
+    try:
+        with open(result["probe"][j]["path"]) as f:
+            res.update(json.load(f))
+        res["ok"] = True
+    except Exception as e:
+        res["error"] = "no readable probe output for job %d: %r" % (j + 1, e)
+    for k in names:
+        try:
+            with open(result[{"stdout": "out", "stderr": "err"}[k]][j]["path"], "rb") as f:
+                res[k] = f.read().decode("utf-8", "replace")
+        except Exception:
+            res[k] = None
+    return res
+
+
+def run_step(case: dict) -> dict:
+    """case: {"id", "jobs": [{"tool", "text"}...], "explicit_zero", "timeout"}: the jobs share the description
+    (every tool differs from the first in the input values only).  The oracle runs the tool ALONE on the inputs
+    of every job; StreamFlow runs the tool scattered over the jobs.  -> {"id", "jobs": [{"ref", "sf"}...], ...}"""
+    w = _W
+    w["n"] += 1
+    cd = os.path.join(w["dir"], "c%d" % w["n"])
+    os.makedirs(cd)
+    out = {"id": case["id"]}
+    try:
+        timeout = int(case.get("timeout", 120))
+        docs, jobs, names = [], [], {}
+        for j, jb in enumerate(case["jobs"]):
+            indir = os.path.join(cd, "in%d" % (j + 1))
+            os.makedirs(indir)
+            d, jo, names = render(jb["tool"], {tuple(k): v for k, v in jb["text"]}, w["probe"], indir, case.get("explicit_zero", False))
+            docs.append(d)
+            jobs.append(jo)
+        if any(d != docs[0] for d in docs):
+            raise RuntimeError("the jobs of a step do not share one tool description")
+        doc, wf = docs[0], step_workflow(docs[0])
+        wjob = {n: [jo[n] for jo in jobs] for n in doc["inputs"]}
+        for name, obj in (("tool.cwl", doc), ("wf.cwl", wf), ("wjob.json", wjob)):
+            with open(os.path.join(cd, name), "w") as f:
+                json.dump(obj, f)
+        with open(os.path.join(cd, "sf.yml"), "w") as f:
+            f.write(SF_FILE.replace("tool.cwl", "wf.cwl").replace("job.json", "wjob.json"))
+        out.update(doc=doc, job=jobs, wf=wf)
+        # --- the oracle: every job alone
+        refs = []
+        for j, jo in enumerate(jobs):
+            with open(os.path.join(cd, "job%d.json" % (j + 1)), "w") as f:
+                json.dump(jo, f)
+            ref_out = os.path.join(cd, "ref%d" % (j + 1))
+            rc, log = _ref_run(cd, "tool.cwl", "job%d.json" % (j + 1), ref_out, timeout)
+            r = _collect(ref_out, names)
+            r["rc"] = rc
+            if not r["ok"]:
+                r["log"] = log
+            refs.append(r)
+        # --- StreamFlow: one step, len(jobs) jobs
+        sf_out = os.path.join(cd, "sf")
+        rc, printed, log = _sf_run(cd, "sf.yml", "wf.cwl", "wjob.json", sf_out, timeout * 2)
+        try:
+            result = json.loads(printed[printed.index("{"):])
+        except Exception:
+            result = {}
+        if rc not in (0, None) or not result.get("probe"):
+            # is the step workflow the harness wrote a valid one?  (the reference must be able to run it)
+            wrc, wlog = _ref_run(cd, "wf.cwl", "wjob.json", os.path.join(cd, "refwf"), timeout * 2)
+            if wrc != 0:
+                raise RuntimeError("the reference cannot run the step workflow written by the harness (rc=%s): %s" % (wrc, wlog))
+        sfs = []
+        for j in range(len(jobs)):
+            r = _collect_listed(result, j, names) if rc in (0, None) else {"ok": False}
+            r["rc"] = rc
+            if not r["ok"]:
+                r["log"] = log
+            sfs.append(r)
+        for j, jb in enumerate(case["jobs"]):
+            runtime_view(refs[j], jb["tool"])
+            runtime_view(sfs[j], jb["tool"], [o for i, o in enumerate(sfs) if i != j])
+        out["jobs"] = [{"ref": r, "sf": s} for r, s in zip(refs, sfs)]
+    except BaseException as e:  # noqa
+        import traceback
+        out["harness_error"] = traceback.format_exc()[-1500:]
+    finally:
+        shutil.rmtree(cd, ignore_errors=True)
         shutil.rmtree(os.path.join(w["dir"], "streamflow"), ignore_errors=True)
     return out
